@@ -325,6 +325,20 @@ func runEntry(path, entry string) (er entryResult) {
 			if err == nil && cm != nil {
 				cm.LookupString([]byte{0, 1, 2, 3, 0x41, 0x42, 0xff, 0xfe})
 				cm.Lookup(0x41)
+				// shown strings of every length 1..130, ending in a lead byte, a short code
+				// or a plain byte. The slices are clipped to their length (cap == len), so
+				// a read past the end of the string cannot hide in spare capacity.
+				pat := []byte{0x81, 0x40, 0xB1, 0x20, 0xE0, 0x40, 0x00, 0x41, 0x9F, 0xFC, 0xA0, 0xDF, 0xFC, 0xFC, 0x80, 0x7F}
+				for n := 1; n <= 130; n++ {
+					for _, last := range []byte{0x81, 0xB1, 0x41, 0xE0, 0x00} {
+						sb := make([]byte, n)
+						for i := range sb {
+							sb[i] = pat[(i+n)%len(pat)]
+						}
+						sb[n-1] = last
+						cm.LookupString(sb[:n:n])
+					}
+				}
 			}
 			set(err)
 		case "core.Stream.Decode":
